@@ -805,6 +805,24 @@ pub fn families(nmax: usize) -> Vec<(String, Vec<Op>)> {
         out.push((format!("big: {} barriers", n), (0..n).flat_map(|i| vec![free(&nm(i)), Op::Barrier]).chain([free("x"), free("y"), Op::Barrier, free("z")]).collect()));
         out.push((format!("big: {} thread-local systems", n), (0..n).map(|_| Op::Tl(SysSpec { name: String::new(), reads: vec![], writes: vec![], time: 3, deps: vec![] })).chain([free("x")]).collect()));
     }
+    // a stage of f groups in front of a barrier; behind it a heavy group, fillers and a light group at index g; then a
+    // system that joins the light group for balance and also writes what front group x writes (stage indices that are
+    // relative to the barrier in one place and absolute in another)
+    for f in 2..=3usize {
+        for g in 1..=3usize {
+            for x in 0..f {
+                let mut v: Vec<Op> = (0..f).map(|i| s(format!("f{}", i), &[], &[i as u8], 3, vec![])).collect();
+                v.push(Op::Barrier);
+                v.push(s("q0".into(), &[], &[4], 5, vec![]));
+                for j in 1..g {
+                    v.push(s(format!("fill{}", j), &[], &[], 1, vec![]));
+                }
+                v.push(s("q1".into(), &[], &[5], 1, vec![]));
+                v.push(s("joiner".into(), &[], &[5, x as u8], 2, vec![]));
+                out.push((format!("joiner-behind-barrier(front {} groups, light group at index {}, shares resource {} with the front)", f, g, x), v));
+            }
+        }
+    }
     for n in 1..=nmax {
         let nm = |i: usize| format!("s{}", i);
         out.push((format!("writers({})", n), (0..n).map(|i| s(nm(i), &[], &[0], 3, vec![])).collect()));
